@@ -185,6 +185,48 @@ Theorem C13_tag_schema_remove_then_absent :
 Proof. exact tag_schema_remove_then_absent. Qed.
 Print Assumptions C13_tag_schema_remove_then_absent.
 
+(* ... lifted to EVERY SEQUENCE of referrer changes of one subject (the index updates of pushes and
+   deletes of manifests with that subject, in any order; [run_changes] = updateReferrersIndex once
+   per change): every update succeeds, the referrers tag afterwards points to what
+   applyReferrerChanges yields step by step ([spec_changes]), and Predecessors lists it.
+   [changes_ok] are the per-step side conditions: the change is effective, the index read
+   decodes, the new index fits MaxMetadataBytes and its digest differs from the old one's
+   (or SkipReferrersGC); satisfiable: C13_tag_schema_changes_satisfiable. *)
+Theorem C13_tag_schema_changes :
+  forall (H : str -> str) (parse_mt : str -> option str) (subject_of : str -> option (option desc))
+         (main other : str) (user_mts : list str) (limit : N) (skip_gc : bool)
+         (index_of : str -> option (list desc)) (p : profile),
+    (forall c, valid_digest (H c) = true) ->
+    (forall l, subject_of (gen_index l) = Some None) ->
+    parse_mt mt_index = Some mt_index ->
+    forall rst subj chs g n st,
+      minv H parse_mt limit g -> rst_ok p rst ->
+      valid_digest (d_dg subj) = true ->
+      let tag := ref_tag (d_dg subj) in
+      resolve_ref main tag = Some tag -> valid_digest tag = false ->
+      p_clen p = true \/ p_dighdr p = true ->
+      index_state g tag st -> NoDup (map fst (g_tags g)) ->
+      changes_ok H limit skip_gc index_of st chs ->
+      exists g' n',
+        run_changes H parse_mt subject_of main other user_mts limit skip_gc index_of p (g, n) rst subj chs
+        = ((g', n'), map (fun _ => ROk) chs) /\
+        minv H parse_mt limit g' /\
+        index_state g' tag (spec_changes H skip_gc st chs) /\
+        NoDup (map fst (g_tags g')) /\
+        (json_ok_st index_of (spec_changes H skip_gc st chs) ->
+         exists n'' t',
+           tag_schema_referrers H parse_mt main user_mts limit index_of (reg * N)
+                                (cexch H subject_of main other p None) (g', n') subj
+           = ((g', n''), t', RDescs (clean_refs [] (ix_list (spec_changes H skip_gc st chs))))).
+Proof. exact tag_schema_changes. Qed.
+Print Assumptions C13_tag_schema_changes.
+
+Example C13_tag_schema_changes_satisfiable :
+  changes_ok w_H w_limit true sat_index_of2 None sat_changes /\
+  spec_changes w_H true None sat_changes = Some (w_H (gen_index [sat_b]), [sat_b]) /\
+  json_ok_st sat_index_of2 (spec_changes w_H true None sat_changes).
+Proof. exact tag_schema_changes_satisfiable. Qed.
+
 (* ... and at the level of the OPERATIONS, in any registry state of a registry WITHOUT the
    Referrers API (manifests with subjects may already be stored: [minv] is [inv] without the
    condition on who indexes subjects): Push of an accurate, indexable manifest whose subject is
